@@ -132,6 +132,7 @@ func cmdCheck(args []string) int {
 	var fails []failure
 	var vcs []*FuncVC
 	var outOfReach []string
+	typeMethodsOK := 0
 	// work list: the functions that carry the property, then (transitively) every function whose proved contract
 	// one of them relies on at a call site — those contribute ALL their obligations, whatever their labels, because
 	// the caller's proof assumed all their postconditions
@@ -233,6 +234,23 @@ func cmdCheck(args []string) int {
 			fails = append(fails, failure{Obligation: ivc.key + "/contract-resolve", Func: ivc.key, Reason: "global invariant unresolvable: " + strings.Join(ivc.errs, "; "), Status: "error"})
 		}
 		vcs = append(vcs, ivc)
+	}
+	// declared method sets
+	for _, tm := range S.TypeMethods {
+		if !labelCounts(tm.Label, pid) || labelProp(tm.Label) == "" && !hasProp(S.Universal, pid) {
+			continue
+		}
+		got, ok := methodSetOf(P, tm.Type)
+		want := append([]string{}, tm.Methods...)
+		sort.Strings(want)
+		if !ok {
+			fails = append(fails, failure{Obligation: "type-methods:" + tm.Type, Reason: tm.Where + ": type " + tm.Type + " not found", Status: "missing"})
+		} else if strings.Join(got, " ") != strings.Join(want, " ") {
+			fails = append(fails, failure{Obligation: "type-methods:" + tm.Type, Where: tm.Where, Desc: "the method set of *" + tm.Type + " is exactly {" + strings.Join(want, " ") + "}",
+				Reason: "the method set is {" + strings.Join(got, " ") + "}: a method that library code finds by dynamic dispatch (io.ReaderFrom, json.Unmarshaler, ...) changes behaviour no call site shows", Status: "scan"})
+		} else {
+			typeMethodsOK++
+		}
 	}
 	for _, w := range globalWriters(P, S, pkgsSeen) {
 		fails = append(fails, failure{Obligation: "global-inv/writer:" + w, Reason: "a function other than the package initialiser writes a package-level table that a global invariant describes: " + w, Status: "scan"})
@@ -420,6 +438,7 @@ func cmdCheck(args []string) int {
 			"solver_time_s":            round2(solverTime),
 			"load_ssa_s":               round2(loadS),
 			"cover_queries":            covers,
+			"type_method_sets_checked": typeMethodsOK,
 			"supporting_functions":     supporting,
 			"discharged_on_hint_slice": nHinted,
 			"full_query_confirmed":     fullConfirmed,
@@ -728,4 +747,35 @@ func runCorpus(pid string) []map[string]string {
 	}
 	wg.Wait()
 	return out
+}
+
+// methodSetOf returns the sorted names of the methods of *T (value and pointer receivers) for a type key "pkg/path.T"
+// (short repository package paths as in function keys).
+func methodSetOf(P *Program, key string) ([]string, bool) {
+	i := strings.LastIndex(key, ".")
+	if i < 0 {
+		return nil, false
+	}
+	pk, tn := key[:i], key[i+1:]
+	for _, sp := range P.SSA.AllPackages() {
+		if sp.Pkg == nil || (shortPkg(sp.Pkg.Path()) != pk && sp.Pkg.Path() != pk) {
+			continue
+		}
+		o := sp.Pkg.Scope().Lookup(tn)
+		if o == nil {
+			continue
+		}
+		named, ok := o.Type().(*types.Named)
+		if !ok {
+			continue
+		}
+		ms := types.NewMethodSet(types.NewPointer(named))
+		var out []string
+		for j := 0; j < ms.Len(); j++ {
+			out = append(out, ms.At(j).Obj().Name())
+		}
+		sort.Strings(out)
+		return out, true
+	}
+	return nil, false
 }
